@@ -8,6 +8,7 @@ Structural clauses decided here (see DESIGN.md 4/C04):
   R5  anchoring / shortest-longest / first matching case item tables
 Not decided: that the produced regex denotes the POSIX language in general."""
 import glob
+import json
 import os
 import re
 
@@ -689,6 +690,7 @@ PRODUCERS = {
     TO_PATTERN_CHARS + '::{closure#0}': {'is_quoting', 'is_quoted', 'hard-expansion'},
     GLOB_CHARS_NEXT: {'is_quoting', 'is_quoted', 'backslash-escaped', 'hard-expansion'},
 }
+ORIGIN_EQ = '<yash_env::semantics::expansion::attr::Origin as core::cmp::PartialEq>::eq'
 DEREFS = ['*::Deref::deref', '*::DerefMut::deref_mut', '*::as_slice', '*::as_mut_slice', '*::AsRef::as_ref', '*::AsMut::as_mut',
           '*::Borrow::borrow', '*::BorrowMut::borrow_mut']
 
@@ -700,9 +702,12 @@ def _base_local(body, du, operand, depth=12):
         if p is None:
             return None
         l = p['l']
-        if body.locals[l].get('name'):
-            return l
         d = du.single_def(l)
+        if body.locals[l].get('name') and not (
+                str(body.locals[l].get('ty') or '').startswith('&') and d is not None and d[1] != 't'
+                and (d[2].get('rv') or {}).get('k') in ('ref', 'use', 'cast')):
+            # an owned named variable; a named reference (`let p = &pattern;`, the parameter of an inlined helper) is followed
+            return l
         if d is None:
             return l
         blk, idx, node = d
@@ -740,6 +745,28 @@ def _canon_local(du, l, depth=12):
     return l
 
 
+def _canon_key(du, l, depth=12):
+    """(base local, non-deref projections) of the place that reference / copy `l` designates: `c = (_5 as Some).0` and
+    `c2 = &(_5 as Some).0` (the two bindings of `Some(c) if c.flag => .., Some(c) => c`) are the same character."""
+    proj = ()
+    for _ in range(depth):
+        d = du.single_def(l)
+        if d is None or d[1] == 't':
+            break
+        rv = d[2].get('rv') or {}
+        if rv.get('k') in ('use', 'cast'):
+            p = Q.operand_place(rv['o'])
+        elif rv.get('k') == 'ref':
+            p = rv['pl']
+        else:
+            break
+        if p is None:
+            break
+        proj = tuple(json.dumps(e, sort_keys=True) for e in p.get('p') or [] if e != '*') + proj
+        l = p['l']
+    return (l, proj)
+
+
 def _field_of(pl, adt, names):
     for e in pl.get('p') or []:
         if isinstance(e, dict) and e.get('f') in names and e.get('adt') == adt:
@@ -758,6 +785,11 @@ def _failed_tests(F, body, du, block):
         out['hard-expansion'] = None
     for org, lab, e in Q.implied_conditions(F, body, du, block):
         org, lab = Q.peel_not(du, org, lab)
+        if org['k'] == 'call' and lab == ('bool', True) and Q.callee_is(org['t'], ['core::cmp::PartialEq::ne']) \
+                and org['t']['f'].get('self') == 'yash_env::semantics::expansion::attr::Origin':
+            # `c.origin != Origin::HardExpansion` held (the derived PartialEq has the default `ne` = !eq)
+            org = dict(org, t=dict(org['t'], f=dict(org['t']['f'], decl=ORIGIN_EQ, **{'def': ORIGIN_EQ})))
+            lab = ('bool', False)
         if lab != ('bool', False):
             continue
         if org['k'] == 'place':
@@ -786,6 +818,47 @@ def _failed_tests(F, body, du, block):
     return out
 
 
+def _closure_true_implies(F, fb):
+    """Quoting flags of its argument that are known to be false whenever the predicate closure `fb` returns true
+    (`|c| !c.is_quoting`, `|c| !(c.is_quoting || c.is_quoted)`, `|c| { if c.is_quoting { return false } .. }`)."""
+    fdu = Q.DefUse(fb)
+    res = None
+    writes = []
+    for b2, j2, s2 in fb.stmts():
+        if s2['k'] == 'assign' and s2['lhs']['l'] == 0:
+            if s2['lhs'].get('p'):
+                return set()
+            writes.append((b2, s2['rv']))
+    for b2, t2 in fb.calls():
+        if t2['dest']['l'] == 0:
+            writes.append((b2, None))
+    for b2, rv in writes:
+        if rv is not None and rv['k'] == 'use' and rv['o'].get('c') == 'false':
+            continue                                  # this exit does not let the item through
+        got = {k for k in _failed_tests(F, fb, fdu, b2) if k in ('is_quoting', 'is_quoted')}
+        if rv is not None and rv['k'] == 'unop' and rv['op'] == 'Not':
+            org = fdu.origin(rv['o'])
+            if org['k'] == 'place':
+                f = _field_of(org['pl'], ATTRCHAR, ('is_quoting', 'is_quoted'))
+                if f:
+                    got.add(f)
+        res = got if res is None else (res & got)
+    return res or set()
+
+
+def _find_established(F, body, du, char_local):
+    """Quoting tests the character behind `char_local` has failed because it is the payload of
+    `iter.find(|c| !c.<flag>)` (the Some payload of Iterator::find satisfies the predicate)."""
+    src = Q.value_source(body, du, {'cp': {'l': char_local}})
+    if src is None or not Q.callee_is(src, [re.compile(r'Iterator>?::find$')]) or len(src['a']) < 2:
+        return set()
+    clo = du.origin(src['a'][1])
+    fb = F.bodies.get(clo['rv'].get('def')) if clo['k'] == 'agg' else None
+    if fb is None:
+        return set()
+    return _closure_true_implies(F, fb)
+
+
 def _filter_established(F, closure_body):
     """Quoting tests that every item reaching `closure_body` (a closure of an iterator chain) has already failed
     because an earlier `.filter(|c| !c.<flag>)` of the same chain let it through."""
@@ -801,14 +874,7 @@ def _filter_established(F, closure_body):
         fb = F.bodies.get(clo['rv'].get('def')) if clo['k'] == 'agg' else None
         if fb is None:
             continue
-        fdu = Q.DefUse(fb)
-        for b2, j2, s2 in fb.stmts():
-            if s2['k'] == 'assign' and s2['lhs']['l'] == 0 and s2['rv']['k'] == 'unop' and s2['rv']['op'] == 'Not':
-                org = fdu.origin(s2['rv']['o'])
-                if org['k'] == 'place':
-                    f = _field_of(org['pl'], ATTRCHAR, ('is_quoting', 'is_quoted'))
-                    if f:
-                        out.add(f)
+        out |= _closure_true_implies(F, fb)
     return out
 
 
@@ -820,7 +886,33 @@ def r4(cx):
     callers = [(b, i, t) for b, i, t in callers if b.crate != 'yash_fnmatch']
     cx.floor(len(callers), 3, 'pattern compile sites outside yash-fnmatch')
     seen_roots = set()
+    expanded = []
     for body, blk, t in callers:
+        sig = F.fns.get(body.fn) or {}
+        if body.root not in CONSUMERS and body.fn == body.root and sig and sig.get('vis') != 'pub' and not sig.get('async'):
+            # `fn compile(chars: &[AttrChar]) -> Option<Pattern>` extracted from a reviewed compiler: a private function of the
+            # same module that only that compiler calls is part of it, and is analysed inlined at its call site
+            users = F.callers_of(lambda names, t_, _fn=body.fn: _fn in names)
+            as_value = any(isinstance(o, dict) and o.get('fn') == body.fn for ob in F.bodies.values() for _b, t_ in ob.calls() for o in t_['a'])
+            roots = {ub.root for ub, _b, _t in users}
+            r0 = next(iter(roots)) if len(roots) == 1 else None
+            if r0 in CONSUMERS and not as_value and r0.rsplit('::', 1)[0] == body.fn.rsplit('::', 1)[0]:
+                found = 0
+                for ufn in sorted({ub.fn for ub, _b, _t in users}):
+                    ib = F.inlined(F.bodies[ufn])
+                    if body.fn not in (getattr(ib, 'inlined_from', None) or []):
+                        continue
+                    if any(pp.callee(t2) == body.fn for _b2, t2 in ib.calls()):
+                        continue              # a call site that could not be inlined stays unreviewed
+                    for b2, t2 in ib.calls():
+                        if any(n in COMPILERS for n in Q.callee_names(t2)) and ib.loc(t2) == body.loc(t):
+                            expanded.append((ib, b2, t2))
+                            found += 1
+                if found:
+                    cx.site('%s: private helper of %s, analysed inlined at its call site' % (body.fn, r0))
+                    continue
+        expanded.append((body, blk, t))
+    for body, blk, t in expanded:
         cx.fn(body.root)
         kind = CONSUMERS.get(body.root)
         cx.site('%s compiles a pattern with %s at %s' % (body.root, pp.callee(t).split('::')[-1], body.loc(t)))
@@ -891,6 +983,11 @@ def r4(cx):
             from_filter = _filter_established(F, body)
             for k_ in from_filter:
                 failed.setdefault(k_, 'filter')
+            vorg0 = du.origin(s['rv']['ops'][0])
+            if vorg0['k'] == 'place' and _field_of(vorg0['pl'], ATTRCHAR, ('value',)):
+                # `let c = self.inner.find(|c| !c.is_quoting)?;`: the character whose value is used passed the predicate
+                for k_ in _find_established(F, body, du, vorg0['pl']['l']):
+                    failed.setdefault(k_, 'filter')
             cx.site('%s: PatternChar::Normal at %s only after %s failed' % (body.fn.split('::')[-2] + '::' + body.fn.split('::')[-1], body.loc(s), sorted(failed)))
             for m in sorted(need - set(failed)):
                 cx.violation(body.fn, 'normal-without:%s' % m, 'a character becomes PatternChar::Normal (syntactically active) although '
@@ -900,8 +997,8 @@ def r4(cx):
             vorg = du.origin(s['rv']['ops'][0])
             vl = vorg['pl']['l'] if vorg['k'] == 'place' and _field_of(vorg['pl'], ATTRCHAR, ('value',)) else None
             flags = {failed.get('is_quoting'), failed.get('is_quoted')} - {None, 'filter'}
-            flags = {_canon_local(du, l_) for l_ in flags}
-            vl = _canon_local(du, vl) if vl is not None else None
+            flags = {_canon_key(du, l_) for l_ in flags}
+            vl = _canon_key(du, vl) if vl is not None else None
             if vl is None or (flags and flags != {vl}):
                 cx.violation(body.fn, 'normal-other-char', 'the character made Normal is not the value of the AttrChar whose flags were tested',
                              loc=body.loc(s))
